@@ -54,7 +54,7 @@ def build(ctx=None):
 
 def run_harness(seed, rounds, permille):
     exe = build()
-    r = common.run([exe, str(seed), str(rounds), str(permille)], timeout=600)
+    r = common.run([exe, str(seed), str(rounds), str(permille)], timeout=300)
     return r.returncode, r.stdout, r.stderr
 
 
@@ -63,7 +63,7 @@ def run_race(iters):
     exe, msg = common.build_harness("c19_qref_race", ["c19_qref_race.c"], whitebox=False)
     if exe is None:
         raise RuntimeError("harness build failed: " + msg)
-    r = common.run([exe, str(iters)], timeout=600)
+    r = common.run([exe, str(iters)], timeout=150)
     return r.returncode, r.stdout[-300:], r.stderr[-300:]
 
 
@@ -240,9 +240,11 @@ def analyse(text, label):
             fail(k, "a block cancelled before it was allowed to start ran its body", "lost-cancel-body")
         if (rd["finalflags"] & 1) == 0 and any(x.kind == 100 and x.a == OP_CANCEL for x in allev):
             fail(k, "DBF_CANCELED is clear at the end of a round in which dispatch_block_cancel returned", "canceled-bit-lost")
-        # --- traces
+    # --- traces (also of a round that did not finish: no R line)
+    for k in sorted(byround):
+        thr_ev = byround[k]
         for thr, evs in thr_ev.items():
-            tr = [e for e in evs if e.kind != 104 and not (e.kind in (100, 101) and False)]
+            tr = [e for e in evs if e.kind != 104]
             # the public dispatch_block_perform call is judged by stamps only (its record is on the library's stack)
             out, skip = [], False
             for e in tr:
@@ -263,8 +265,30 @@ def analyse(text, label):
 IMPORTS = ["Word", "Conc", "Gen_block", "Block"]
 
 
-def conformance(name, alltr):
-    return conc.coq_conform(name, IMPORTS, "conform", [(sv, t) for (sv, t, _, _, _) in alltr], chunk=300)
+def is_perform_trace(t):
+    """the harness marks invocations of a DBF_PERFORM record: DVU_CALL a=OP_DIRECT b=1 (such records see no other call)"""
+    return any(e.kind == 100 and e.a == OP_DIRECT and e.b == 1 for e in t)
+
+
+def coq_traces(traces):
+    return ";\n".join("((%d, %s), [%s])" % (sv, "true" if is_perform_trace(tr) else "false", "; ".join(e.coq() for e in tr))
+                       for sv, tr in traces)
+
+
+def conformance(name, alltr, chunk=300):
+    """evaluates Block.conform self pf trace inside Coq for every recorded thread trace; returns [(rejected_at, ended_idle)]"""
+    traces = [(sv, t) for (sv, t, _, _, _) in alltr]
+    out = []
+    for c0 in range(0, len(traces), chunk):
+        part = traces[c0:c0 + chunk]
+        body = ["Definition traces : list ((Z * bool) * list event) := [", coq_traces(part), "].",
+                "Eval vm_compute in map (fun '((sv, pf), tr) => let '(i, d) := conform sv pf tr in [i; d]) traces."]
+        ok, vals, raw = driver.coq_eval("%s_%d" % (name, c0), IMPORTS, "\n".join(body) + "\n", timeout=900)
+        if not ok or len(vals) != 1:
+            raise RuntimeError("coq conformance evaluation failed: " + raw[-2000:])
+        xs = driver.ints(vals[0])
+        out += [(xs[2 * i], xs[2 * i + 1]) for i in range(len(part))]
+    return out
 
 
 # transitions of Block.tstep as (pc_tag p) * 100 + (pc_tag p'), read off the definition of tstep (Block.pc_tag)
@@ -295,10 +319,8 @@ def coverage(name, alltr):
     seen = set()
     for c0 in range(0, len(traces), 300):
         part = traces[c0:c0 + 300]
-        body = ["Definition traces : list (Z * list event) := ["]
-        body.append(";\n".join("(%d, [%s])" % (sv, "; ".join(e.coq() for e in tr)) for sv, tr in part))
-        body.append("].")
-        body.append("Eval vm_compute in nodup Z.eq_dec (flat_map (fun '(sv, tr) => conform_cov sv tr) traces).")
+        body = ["Definition traces : list ((Z * bool) * list event) := [", coq_traces(part), "].",
+                "Eval vm_compute in nodup Z.eq_dec (flat_map (fun '((sv, pf), tr) => conform_cov sv pf tr) traces)."]
         ok, vals, raw = driver.coq_eval("%s_%d" % (name, c0), IMPORTS, "\n".join(body) + "\n", timeout=900)
         if not ok or len(vals) != 1:
             raise RuntimeError("coq coverage evaluation failed: " + raw[-2000:])
@@ -315,13 +337,14 @@ def shape(t):
 def correspond(ctx):
     nseeds, rounds = (6, 150) if ctx.tier == "quick" else (24, 400)
     fails, mism, alltr, total = [], [], [], {}
-    notes = []
+    notes, cut = [], []
     # corpus of found defects first: the queue over-release race (fixed in /repo)
     rc, out, err = run_race(150000 if ctx.tier == "quick" else 1500000)
     total["qref_race_rc"] = rc
     if rc != 0:
-        fails.append({"key": "qref-race", "what": "dispatch_block_wait racing dispatch_async of the same block object crashed "
-                      "the library (rc=%s): the target queue is published in dbpd_queue before it is retained" % rc,
+        fails.append({"key": "qref-race", "what": "dispatch_block_wait racing dispatch_async of the same block object crashed or "
+                      "hung (rc=%s; 132 = 'Over-release of an object': the target queue published in dbpd_queue before it is "
+                      "retained; 124 = a wait that never returns)" % rc,
                       "label": "race", "detail": (out + err)[-300:]})
     for i in range(nseeds):
         seed = ctx.seed * 1000 + i
@@ -329,9 +352,21 @@ def correspond(ctx):
         rc, text, err = run_harness(seed, rounds, permille)
         label = "seed%d" % seed
         if rc != 0:
-            fails.append({"key": "%s:harness-crash" % label, "what": "stress client died (rc=%s) while using block objects through "
-                          "the public API (seed %d, %d rounds, perturbation %d/1000): %s" % (rc, seed, rounds, permille, err[-200:]),
+            # the client hung (watchdog, rc 3 / 124) or died (crash handler, rc 4): a failure by itself; what was recorded
+            # until then still goes through trace conformance (rejections only: the traces are cut short)
+            note = [l for l in text.splitlines() if l.startswith("HANG") or l.startswith("CRASH")]
+            kind = "hang" if rc in (3, 124) else "crash"
+            fails.append({"key": "%s:%s" % (label, kind),
+                          "what": ("stress client hung: a waiter, a dispatch_sync or an invocation of a block object never completed"
+                                   if kind == "hang" else "stress client died while using block objects through the public API")
+                                  + " (%s; rc=%s, seed %d, %d rounds, perturbation %d/1000) %s"
+                                  % (note[0] if note else "no report", rc, seed, rounds, permille, err[-200:]),
                           "label": label, "rounds": rounds, "permille": permille})
+            try:
+                _, tr, _, _ = analyse(text, label)
+                cut += [(sv, t, rd, thr, seed, permille) for (sv, t, rd, thr) in tr]
+            except Exception:
+                pass
             continue
         f, tr, st, _ = analyse(text, label)
         for x in f:
@@ -340,9 +375,17 @@ def correspond(ctx):
         alltr += [(sv, t, rd, thr, seed, permille) for (sv, t, rd, thr) in tr]
         for k, v in st.items():
             total[k] = total.get(k, 0) + v
-    perm_of = {(x[4]): x[5] for x in alltr}
+    perm_of = {(x[4]): x[5] for x in alltr + cut}
     alltr = [x[:5] for x in alltr]
+    cut = [x[:5] for x in cut]
     res = conformance("c19_conf", alltr) if alltr else []
+    if cut:
+        for (i, idle), (sv, t, rd, thr, seed) in zip(conformance("c19_conf_cut", cut), cut):
+            if i != -1:
+                mism.append({"what": "a recorded thread trace of the library (run cut short by a hang / crash) is not accepted by the "
+                             "model's thread automaton (Block.tstep with latent steps)",
+                             "detail": {"seed": seed, "rounds": rounds, "permille": perm_of.get(seed), "round": rd, "thread": thr,
+                                        "self": sv, "rejected_at": i, "trace": [e.brief() for e in t][:60]}})
     for (i, idle), (sv, t, rd, thr, seed) in zip(res, alltr):
         if i != -1 or idle != 1:
             mism.append({"what": "a recorded thread trace of the library is not accepted by the model's thread automaton "
